@@ -30,6 +30,12 @@ def frFuel : Nat := 200000
 def okKv' (p n : Nat) (U : List Rat) : Bool :=
   decide (1 ≤ p) && decide (p + 1 ≤ n) && decide (U.length = n + p + 1) && isSortedB U
 def inDom' (p n : Nat) (U : List Rat) (u : Rat) : Bool := decide (fn U p ≤ u) && decide (u ≤ fn U n)
+/-- F-01b guard for the ops that only SEARCH a span: the repaired `find_span_linear` steps back from an empty found
+    span `k > p` (`U_k = U_{k+1}`) to the last non-empty one; the model `findSpanLinear` does not (all theorems assume
+    `KnotsOk`), so the op answers ERR where the two differ -/
+def stepBackAt (p n : Nat) (U : List Rat) (u : Rat) : Bool :=
+  let k := findSpanLinear p (fn U) n u
+  decide (p < k) && fn U k == fn U (k + 1)
 
 def handlePredicates : List String → Option String
   | ["isleft", a, b, c] => do
@@ -77,13 +83,15 @@ def handlePredicates : List String → Option String
       | none => return "HANG"
   | ["fcpc", p, us, ps, u] => do
       let p ← p.toNat?; let U ← parseList us; let P ← parsePts ps; let u ← parseRat u
-      if !(okKv' p P.length U && inDom' p P.length U u) then return "ERR"
+      -- `operations.find_ctrlpts` has NO domain check (audit 4, H6 note): outside [U_p, U_n] the span search returns the
+      -- first / last span and its control points are returned; driver = code
+      if !(okKv' p P.length U) || stepBackAt p P.length U u then return "ERR"
       return showPts (findCtrlptsCurve [] p (fn U) P u)
   | ["fcps", pu, pv, uus, uvs, su, sv, ps, u, v] => do
       let pu ← pu.toNat?; let pv ← pv.toNat?; let Uu ← parseList uus; let Uv ← parseList uvs
       let su ← su.toNat?; let sv ← sv.toNat?; let P2 ← parsePts2 ps; let u ← parseRat u; let v ← parseRat v
-      if !(okKv' pu su Uu && okKv' pv sv Uv && inDom' pu su Uu u && inDom' pv sv Uv v
-           && P2.length == su && P2.all (·.length == sv)) then return "ERR"
+      if !(okKv' pu su Uu && okKv' pv sv Uv
+           && P2.length == su && P2.all (·.length == sv)) || stepBackAt pu su Uu u || stepBackAt pv sv Uv v then return "ERR"
       return showPts2 (findCtrlptsSurface [] pu pv (fn Uu) (fn Uv) su sv P2 u v)
   | _ => none
 
